@@ -1,0 +1,15 @@
+//go:build verif
+
+// Verification hooks (build tag "verif"). Thin exported wrappers; no logic of their own.
+
+package memberlist
+
+// VerifQueued is the number of broadcasts waiting in the gossip queue.
+func (m *MemberList) VerifQueued() int {
+	return m.broadcastQueue.NumQueued()
+}
+
+// VerifMembers is the number of members the gossip layer currently knows.
+func (m *MemberList) VerifMembers() int {
+	return m.memberList.NumMembers()
+}
